@@ -749,7 +749,12 @@ func compactToSliceOfSlice(compact [][2]int) [][]int {
 //	process(buf)
 func (r *Regex) AppendAllIndex(dst [][2]int, b []byte, n int) [][2]int {
 	if n == 0 {
-		return nil
+		return dst
+	}
+	if len(dst) > 0 {
+		// The engine truncates the buffer it is given before reusing it, so hand it
+		// only the spare capacity of dst and keep the elements already present.
+		return append(dst, r.engine.FindAllIndicesStreaming(b, n, dst[len(dst):])...)
 	}
 	return r.engine.FindAllIndicesStreaming(b, n, dst)
 }
